@@ -36,6 +36,8 @@ type wsOut struct {
 	Cl        string `json:"cl"`
 	BurstGot  int    `json:"burst_got"`
 	BurstOK   bool   `json:"burst_ok"`
+	Attempts  int    `json:"attempts"`
+	expected  bool
 	Handshake bool   `json:"handshake"` // client read a 101 and the upstream saw the relayed request
 	UpEnd     string `json:"upend"`
 	Served    bool   `json:"served"`
@@ -64,7 +66,33 @@ func readHeader(c net.Conn, d time.Duration) (hdr, rest []byte, err error) {
 
 var wsGlobCache = route.NewGlobCache(16)
 
+// runWS measures a case; an outcome that is not the expected one (or a harness timeout) is measured again in a
+// fresh run, at most three attempts (see runTunnel).
 func runWS(raw json.RawMessage) (interface{}, error) {
+	var out wsOut
+	var err error
+	for a := 1; a <= 3; a++ {
+		var o interface{}
+		o, err = runWSOnce(raw, a)
+		if err != nil {
+			if _, timeout := err.(harnessTimeout); timeout {
+				continue
+			}
+			return nil, err
+		}
+		out = o.(wsOut)
+		out.Attempts = a
+		if out.expected {
+			break
+		}
+	}
+	if err != nil {
+		return nil, err
+	}
+	return out, nil
+}
+
+func runWSOnce(raw json.RawMessage, attempt int) (interface{}, error) {
 	var in wsIn
 	if err := json.Unmarshal(raw, &in); err != nil {
 		return nil, err
@@ -103,7 +131,7 @@ func runWS(raw json.RawMessage) (interface{}, error) {
 
 	// upstream: accepts the relayed handshake, answers 101 (+ first bytes) in one write, then records
 	up, err := newUpstreamFunc(func(c net.Conn, ep *endpoint) bool {
-		hdr, rest, err := readHeader(c, waitT)
+		hdr, rest, err := readHeader(c, hardT)
 		if err != nil || !bytes.HasPrefix(hdr, []byte("GET /ws HTTP/1.1\r\n")) {
 			c.Close()
 			return false
@@ -150,10 +178,17 @@ func runWS(raw json.RawMessage) (interface{}, error) {
 	if _, err := cc.Write([]byte(wsReq)); err != nil {
 		return nil, err
 	}
-	hdr, rest, herr := readHeader(cc, waitT)
-	uok := waitUntil(waitT, nil, up.isAccepted)
-	if herr != nil || !uok || !bytes.HasPrefix(hdr, []byte("HTTP/1.1 101")) {
+	hdr, rest, hserr := readHeader(cc, hardT)
+	if hserr != nil || !bytes.HasPrefix(hdr, []byte("HTTP/1.1 101")) || waitFor(hardT, nil, up.isAccepted) != wOK {
+		// a verdict (the handshake relay failed), re-measured by the caller: the handler under test gives the
+		// upstream one second to answer, which a starved machine can exceed
 		return wsOut{Handshake: false}, nil
+	}
+	var herr error
+	must := func(what string, st int) {
+		if st == wTimeout && herr == nil {
+			herr = harnessTimeout(what)
+		}
 	}
 	var cep endpoint
 	cep.recv = append(cep.recv, rest...)
@@ -172,32 +207,48 @@ func runWS(raw json.RawMessage) (interface{}, error) {
 			}
 		}
 	}()
-	go writeSegs(uep.c(), usegs, false)
-	select {
-	case <-cwritten:
-	case <-time.After(4 * waitT):
+	uwritten := make(chan struct{})
+	go func() {
+		defer close(uwritten)
+		writeSegs(uep.c(), usegs, false)
+	}()
+	must("the client's writes", waitFor(2*hardT, nil, chanClosed(cwritten)))
+	must("the upstream's writes", waitFor(hardT, nil, chanClosed(uwritten)))
+	// Whoever finishes does so by FIN behind its own data, nothing to wait for in that direction; what the
+	// OTHER side has sent must have arrived before (bytes in flight towards a side that has finished may
+	// legitimately be dropped): a count, re-measured when the bound is hit.
+	if in.Order == "upstream" {
+		waitFor(softT(attempt), nil, func() bool { return uep.n() >= clen+in.Burst })
+	} else {
+		waitFor(softT(attempt), nil, func() bool { return cep.n() >= xlen+ulen })
 	}
-	// client→upstream: a client that finishes does so by FIN behind its data, nothing to wait for; only when
-	// the upstream finishes first everything sent so far must have arrived
-	waitUntil(waitT, nil, func() bool { return (in.Order != "upstream" || uep.n() >= clen+in.Burst) && cep.n() >= xlen+ulen })
 
-	served := true
+	finishUpstream := func() {
+		if c, ok := uep.c().(*net.TCPConn); ok {
+			c.CloseWrite()
+		}
+	}
 	switch in.Order {
 	case "client":
 		cc.(*net.TCPConn).CloseWrite() // FIN behind the data; the client keeps reading
-		served = waitUntil(2*waitT, nil, uep.ended)
+		must("the upstream to see the end of the client's stream", waitFor(2*hardT, nil, uep.ended))
+		finishUpstream()
 	case "upstream":
-		uep.c().Close()
-		served = waitUntil(waitT, nil, cep.ended)
+		finishUpstream()
 	case "halfclose":
 		cc.(*net.TCPConn).CloseWrite()
-		waitUntil(waitT, nil, uep.ended)
+		must("the upstream to see the end of the client's stream", waitFor(hardT, nil, uep.ended))
 		writeSegs(uep.c(), reply, false)
-		uep.c().Close()
-		served = waitUntil(waitT, nil, cep.ended)
+		finishUpstream()
 	}
+	st := waitFor(hardT, nil, cep.ended)
+	must("the proxy to end the client's connection", st)
+	served := st == wOK
 	cc.Close()
-	waitUntil(waitT, nil, uep.ended)
+	must("the upstream to see its connection end", waitFor(hardT, nil, uep.ended))
+	if herr != nil {
+		return nil, herr
+	}
 	upb, upend := uep.snapshot()
 	clb, _ := cep.snapshot()
 	headLen := clen
@@ -205,7 +256,22 @@ func runWS(raw json.RawMessage) (interface{}, error) {
 		headLen = len(upb)
 	}
 	bgot, bok := burstCheck(upb[headLen:], in.BurstSeed)
-	return wsOut{Up: hx2(upb[:headLen]), Cl: hx2(clb), BurstGot: bgot, BurstOK: bok, Handshake: true, UpEnd: upend, Served: served}, nil
+	var wantUp, wantCl []byte
+	for _, c := range cchunks {
+		wantUp = append(wantUp, c...)
+	}
+	for _, l := range [][][]byte{extra, usegs} {
+		for _, u := range l {
+			wantCl = append(wantCl, u...)
+		}
+	}
+	if in.Order == "halfclose" {
+		for _, u := range reply {
+			wantCl = append(wantCl, u...)
+		}
+	}
+	expected := bytes.Equal(upb[:headLen], wantUp) && bytes.Equal(clb, wantCl) && bgot == in.Burst && bok
+	return wsOut{expected: expected, Up: hx2(upb[:headLen]), Cl: hx2(clb), BurstGot: bgot, BurstOK: bok, Handshake: true, UpEnd: upend, Served: served}, nil
 }
 
 func genWSWith(r *hx.Rand, order string) wsIn {
